@@ -23,6 +23,16 @@ Theorem C06_move_certain_when_stored_or_held : forall p s i v d s1,
   d = AcceptDesirable /\ cur s1 = i_cand i /\ accprob s1 = 1%float /\ accepted s1 = true.
 Proof. exact move_certain. Qed.
 
+(* "already holds its action set", stated on the solution set itself: some member has the candidate's
+   action set and no member dominates the candidate (the solution set is mutually non-dominated and
+   values are a function of the action set -- C05/C01 -- so a held action set is never dominated) *)
+Theorem C06_move_certain_when_action_set_held : forall p s i,
+  (exists x, In x (arch s) /\ same_acts x (i_cand i)) ->
+  (forall x, In x (arch s) -> dominates (e_vec x) (e_vec (i_cand i)) = Ok false) ->
+  exists s1, accept_phase p s i = Ok (RejectedWithDuplicateEntryDetected, AcceptDesirable, s1)
+             /\ cur s1 = i_cand i /\ arch s1 = arch s /\ accprob s1 = 1%float.
+Proof. exact move_certain_when_held. Qed.
+
 (* what the four verdicts mean (no other verdict can come out of the attempt) *)
 Theorem C06_verdict_sound : forall p s i v d s1,
   accept_phase p s i = Ok (v, d, s1) ->
@@ -93,6 +103,18 @@ Theorem C06_acceptance_probability_in_unit_interval : forall k es,
   fin (accept_prob k es) /\ (0 <= val (accept_prob k es) <= 1)%R.
 Proof. exact accept_prob_unit. Qed.
 
+(* the same with boolean hypotheses and conclusion: the float comparisons 0 <= p and p <= 1 answer true *)
+Theorem C06_acceptance_probability_in_unit_interval_bool : forall k es,
+  es <> [] -> (Z.of_nat (length es) <= 2 ^ 53)%Z ->
+  forallb factor_in_range es = true -> factor_in_range (accept_prob k es) = true.
+Proof. exact accept_prob_unit_bool. Qed.
+
+Example C06_unit_interval_hypotheses_satisfiable :
+  forallb factor_in_range [mkf 1 (-1); mkf 3 (-2); 1%float; 0%float] = true
+  /\ accept_prob Product [mkf 1 (-1); mkf 3 (-2)] = mkf 3 (-3)
+  /\ accept_prob Mean [mkf 1 (-1); mkf 3 (-2)] = mkf 5 (-3).
+Proof. vm_compute. repeat split; reflexivity. Qed.
+
 (* the ideal formula: for every change and every positive temperature *)
 Theorem C06_ideal_exp_in_unit_interval : forall d T : R,
   (0 < T)%R -> (0 < exp (- Rabs d / T) <= 1)%R.
@@ -140,6 +162,15 @@ Theorem C06_first_interval_non_increasing : forall p, params_ok p = true ->
   forall c0 c1, (p_min p <= p_init p)%Z ->
   sched_countdown p 0 = Ok c0 -> sched_countdown p 1 = Ok c1 -> (c1 <= c0)%N.
 Proof. exact countdown_first_nonincreasing. Qed.
+
+(* the countdown machine compared in the long schedule-only correspondence runs ([sched_tick]) is exactly
+   the projection of an iteration on (countdown, step): candidates, draws and the archive do not matter *)
+Theorem C06_schedule_is_independent_of_candidates : forall p s i o s',
+  iteration p s i = Ok (o, s') ->
+  sched_tick p (until s, stepf s) = Ok (is_some (o_base o), (until s', stepf s'))
+  /\ iter s' = (iter s + 1)%N
+  /\ last_rtb s' = (if is_some (o_base o) then iter s else last_rtb s).
+Proof. exact iteration_sched. Qed.
 
 (* invariant of every state reachable in n iterations, whatever the candidates and draws were:
    k returns so far, the last at iteration t = countdown_0 + ... + countdown_{k-1} (= LastReturnedToBase),
@@ -215,6 +246,7 @@ Example C06_example_run : example_run_statement.
 Proof. exact example_run_holds. Qed.
 
 Print Assumptions C06_move_certain_when_stored_or_held.
+Print Assumptions C06_move_certain_when_action_set_held.
 Print Assumptions C06_verdict_sound.
 Print Assumptions C06_move_iff_probability_exceeds_draw.
 Print Assumptions C06_accepted_undesirable_is_forced.
@@ -223,6 +255,7 @@ Print Assumptions C06_move_rule_leaves_schedule.
 Print Assumptions C06_iteration_current_solution.
 Print Assumptions C06_runs_are_iterations.
 Print Assumptions C06_acceptance_probability_in_unit_interval.
+Print Assumptions C06_acceptance_probability_in_unit_interval_bool.
 Print Assumptions C06_ideal_exp_in_unit_interval.
 Print Assumptions C06_initial_state_defined.
 Print Assumptions C06_countdowns_defined.
@@ -232,6 +265,7 @@ Print Assumptions C06_step_recurrence.
 Print Assumptions C06_countdown_never_below_minimum.
 Print Assumptions C06_countdowns_non_increasing.
 Print Assumptions C06_first_interval_non_increasing.
+Print Assumptions C06_schedule_is_independent_of_candidates.
 Print Assumptions C06_schedule_invariant.
 Print Assumptions C06_countdown_never_wraps.
 Print Assumptions C06_return_exactly_at_partial_sums.
